@@ -8,5 +8,5 @@ for c in $(git -C /repo rev-list --reverse "$RANGE"); do
   res=$(/verif/tools/baseline.sh "$W" 2>&1 | grep -E "^BASELINE|passed|failed" | tr '\n' ' ')
   echo "$(git -C /repo log -1 --format='%h %s' "$c" | cut -c1-80) :: $res"
   git -C /repo worktree remove --force "$W"
-  rm -rf "$W" /tmp/baseline.*
+  rm -rf "$W"
 done
